@@ -4,6 +4,7 @@ From NW Require Import Base.Bytes Model.SchemaTypes Gen.Schema Model.Codec Model
 From NW Require Import Proofs.ServerLib Proofs.ServerRoute Proofs.ServerHandlers Proofs.ServerSteps Proofs.ServerPhases.
 From NW Require Import Proofs.ServerInvBase Proofs.ServerInv Proofs.ServerUniq Proofs.ServerInvCor Proofs.ServerLimits.
 From NW Require Import Proofs.ServerChanCount.
+From NW Require Import Gen.Wiring.
 
 Theorem C14_limits_every_reachable_state :
   forall (cfg : scfg) (ops : list op),
@@ -162,3 +163,11 @@ Theorem C14_channel_limit_example :
     N.of_nat (Datatypes.length (chans (run_state chan1_cfg init chan1_ops_all))) =
     max_channels chan1_cfg.
 Proof. exact chan_limit_example. Qed.
+
+(* The configured limits reach the channel manager and the connection engine through positional arguments and
+   field-by-field conversions in code the in-process harness does not execute (`narwhal_server::run`, the
+   `From<&Config>` conversions).  translator/wiring.py reads those hand-overs off the CURRENT source and lists the ones
+   whose source and destination names disagree (coq/Gen/Wiring.v, regenerated on every run). *)
+Theorem C14_source_limits_wiring :
+  NW.Gen.Wiring.wiring_mismatches = [] /\ (20 <=? NW.Gen.Wiring.wiring_sites)%N = true.
+Proof. split; reflexivity. Qed.
